@@ -124,6 +124,11 @@ def run(args):
         net = jx.Network(cells)
         desc_n = dict(level="network", cells=[c.nodes.shape[0] for c in cells])
         check_rows_preserved(R, net, cells, "Network(cells)", desc_n)
+        # ---------- the assembled network simulates ITS TABLES (Lean model of the whole simulation driven by nodes / branch structure only)
+        net.delete_recordings(); net.delete_stimuli(); net.record("v", verbose=False)
+        net.select(nodes=[0]).stimulate(jnp.asarray(0.3 * np.ones(6)), verbose=False)
+        check_simulates_tables(R, LeanDriver(), net, dict(desc_n, block="assembled network"), backend="jax.sparse", kind="assembled-module-differs-from-table-simulation")
+        net.delete_recordings(); net.delete_stimuli()
         # ---------- network without synapses == each cell alone
         offs = np.cumsum([0] + [c.nodes.shape[0] for c in cells])
         for backend in BACKENDS:
